@@ -6,7 +6,7 @@
     and transposition axes the code contains now.  scipy's csr_matrix (dense -> CSR; triples ->
     matrix with duplicates summed) and numpy's reshape/transpose are modelled
     (Qib.Embed.EmbedModel) and tied by the correspondence run. *)
-From Qib Require Import Embed.WireProofs Base.Inst.
+From Qib Require Import Embed.WireProofs Embed.CsrProofs Base.Inst.
 From Run Require Import GenEmbed.
 Local Open Scope Z_scope.
 
@@ -109,6 +109,28 @@ Theorem C04_as_circuit_matrix :
 Proof. intros K L fields prtcl g T F N A C H. rewrite code_acm_is_model in H. exact (as_circuit_matrix_entry fields prtcl g T F N A C H). Qed.
 Print Assumptions C04_as_circuit_matrix.
 
+(** 5'. the same, about the gate's OWN dense matrix G (what the property text says): scipy's
+    csr_matrix(G) (modelled: non-zero entries row-major, indptr = running counts; [nz v = false] only for
+    v = 0) is accepted by the funnel - no RuntimeError, no AssertionError - and the register-level matrix
+    is [mxl G] itself on the wires of the particles (first listed particle = most significant gate index,
+    wires numbered field by field in the order of the field list), identity on every other wire.
+    Covers every 2^m x 2^m matrix (dense, non-symmetric, non-unitary), every list of distinct particles in any
+    order and adjacency, every list of distinct fields of any sizes. *)
+Theorem C04_as_circuit_matrix_own_matrix :
+  forall (K : Scalar) (L : ScalarLaws K) (nz : K -> bool), (forall v, nz v = false -> v = s0) ->
+  forall fields prtcl (G : list (list K)),
+    fields_ok fields -> NoDup prtcl -> Forall (particle_ok fields) prtcl ->
+    length G = (2 ^ length prtcl)%nat -> Forall (fun row => length row = (2 ^ length prtcl)%nat) G ->
+    let nw := Z.to_nat (fsum fields) in
+    exists T, code_as_circuit_matrix s0 fields prtcl (csr_of_dense nz G) = AcmOk T /      forall r c, length r = nw -> length c = nw ->
+        triples_entry T r c = embed nw (wires_of fields prtcl) (mxl G) r c.
+Proof.
+  intros K L nz Hnz fields prtcl G F N A HG HR. cbv zeta.
+  destruct (as_circuit_matrix_of_dense nz Hnz fields prtcl G F N A HG HR) as [T [HT HE]].
+  exists T. split; [rewrite code_acm_is_model; exact HT|exact HE].
+Qed.
+Print Assumptions C04_as_circuit_matrix_own_matrix.
+
 (** 6. permute_gate_wires u perm = P u P^dagger for the unitary permutation matrix P of perm *)
 Theorem C04_permute_gate_wires_is_conjugation :
   forall (K : Scalar) (L : ScalarLaws K) n (u : BMx K) perm, is_perm n perm ->
@@ -167,3 +189,17 @@ Proof.
   - split; vm_compute; reflexivity.
   - vm_compute. split; reflexivity.
 Qed.
+
+(** non-vacuity of 5': fields listed as [(id 1, 2 sites); (id 0, 3 sites)], a dense non-symmetric 2-wire gate on
+    particles (field 0, index 1) and (field 1, index 1): wires (3, 1) of the 5-wire register *)
+Example C04_instance_fields :
+  let G : list (list ZI) := [[(1,0);(2,1);(0,-1);(3,0)]; [(0,2);(1,1);(5,0);(0,0)];
+                             [(7,0);(0,0);(1,-3);(2,2)]; [(0,1);(4,0);(0,0);(1,0)]] in
+  let fields := [(1, 2); (0, 3)] in
+  let prtcl := [(0, 1); (1, 1)] in
+  wires_of fields prtcl = [3%nat; 1%nat] /\
+  match code_as_circuit_matrix (V:=ZI) (0,0) fields prtcl (csr_of_dense (fun v : ZI => negb (zi_eqb v (0,0))) G) with
+  | AcmOk T => dense 5 (triples_entry (K:=ZI) T) = dense 5 (embed (K:=ZI) 5 [3%nat; 1%nat] (mxl (K:=ZI) G))
+  | _ => False
+  end.
+Proof. cbv zeta. split; vm_compute; reflexivity. Qed.
